@@ -418,6 +418,12 @@ func vfPrepareClient(src vfClientSrc, sni string, randSeed uint64, mod func(*Con
 		return nil, fmt.Errorf("BuildHandshakeState: %w", err)
 	}
 	raw := uc.HandshakeState.Hello.Raw
+	if len(raw) == 0 && src.ID.Client == helloGolang {
+		// HelloGolang marshals lazily: the offer is read from the marshalled form of the built message
+		if b, err := uc.HandshakeState.Hello.Marshal(); err == nil {
+			raw = b
+		}
+	}
 	h := vfParseClientHello(raw)
 	p := &vfPrepared{Src: src, CP: cp, SP: sp, UC: uc, CCfg: ccfg}
 	p.Offer = vfOfferOf(h, uc.config.MinVersion)
